@@ -303,8 +303,31 @@ pub fn oracle_c04(op: &[&str], out: &str) -> Verdict {
 
 // ---------------------------------------------------------------------------------------------
 
+/// signature bodies that end in the last byte of the production budget (625 / 1239 bytes), every alignment of the last
+/// coefficient: what `sign` hands to `compress` for the rare signatures that use all of the fixed size
+pub fn full_budget_bodies(tier: &str, rng: &mut Prng, ops: &mut Vec<Case>) {
+    for (n, l) in [(512usize, 625usize), (1024, 1239)] {
+        for r in 0..8usize {
+            for _ in 0..(if tier == "thorough" { 6 } else { 1 }) {
+                let mut v: Vec<i32> = (0..n).map(|_| rng.range(-127, 127) as i32).collect();
+                let mut bits = 9 * n;
+                let target = 8 * l - r;
+                while bits < target {
+                    let j = rng.below(n as u64) as usize;
+                    if v[j].abs() < 1900 {
+                        v[j] += if v[j] < 0 { -128 } else { 128 };
+                        bits += 1;
+                    }
+                }
+                ops.push(Case::new(format!("compress {l} {}", ints(&v))));
+            }
+        }
+    }
+}
+
 pub fn generate_c05(tier: &str, rng: &mut Prng) -> Vec<Case> {
     let mut ops = vec![];
+    full_budget_bodies(tier, rng, &mut ops);
     let per = if tier == "thorough" { 40 } else { 2 };
     for n in [512usize, 1024] {
         let tag = if n == 512 { 2u8 } else { 3u8 };
@@ -407,6 +430,7 @@ pub fn op_sk_fields(n: usize, f: &[i64], g: &[i64], cf: &[i64]) -> String {
 
 pub fn oracle_c05(op: &[&str], out: &str) -> Verdict {
     match op[0] {
+        "compress" => crate::c07::oracle(op, out),
         "sk_roundtrip" => {
             let want = if op[1] == "512" { "1281 897 666 true true true true" } else { "2305 1793 1280 true true true true" };
             if out == want {
